@@ -9,6 +9,9 @@ R-C13-3: setup() re-defines every setup-owned member the solve phase reads (leve
          solve() leaves setup-owned configuration as it found it or re-derives it on entry.
 R-C13-5: nothing reachable from setup() or solve() writes an option member (a member a public setter assigns): options
          must survive a setup() unchanged, or a second setup() for another problem size inherits derived values.
+R-C13-6: the functions that the value-flow analysis replaces by an operator symbol (computeExactError, extrapolatedResidual,
+         build_rhs_f, discretize_rhs_f, the transfer operators, the operators' apply methods) write no member of their own
+         object: a value kept from one call to the next would be history that the summaries cannot see.
 Timings (t_*) accumulate by design until resetTimings() and are excluded.
 """
 import itertools
@@ -91,6 +94,7 @@ def main(tier):
     for m_ in SETUP_OWNED:
         if m_ not in gm_fields:
             raise ir.AnalysisBroken("anchor vanished: GMGPolar::%s (a member this rule names; renamed or removed)" % m_)
+    setup_writes_all = [None]
     for ext, fmg, L in itertools.product(range(4), (False, True), (2, 3)):
         mode = {"L": L, "FMG": fmg, "extrapolation": ext, "max_iterations": 0}
         what = "setup ext=%s FMG=%s L=%d" % (EXT[ext], fmg, L)
@@ -100,6 +104,7 @@ def main(tier):
             probs = []
             if dom.throws:
                 probs.append("setup throws %s" % dom.throws.what)
+            setup_writes_all[0] = set(dom.field_writes) if setup_writes_all[0] is None else (setup_writes_all[0] & set(dom.field_writes))
             missing = [m for m in SETUP_OWNED if m not in dom.field_writes]
             if missing:
                 probs.append("setup() does not re-define %s" % ", ".join(missing))
@@ -194,6 +199,93 @@ def main(tier):
                 q, root, m_, ", ".join(sorted(setters[m_]))))
         else:
             ck.ok("R-C13-5", m_, sample={"option member": m_, "setters": sorted(setters[m_])} if m_ == "ntheta_exp_" else None)
+    # ---- R-C13-6: the functions the value-flow analysis replaces by an operator symbol keep no state of their own
+    ck.rule("R-C13-6", "a function that the driver analysis summarises by its operator signature writes no member of its own object (a value kept from one call to the next is history the summaries cannot see)", floor=10)
+
+    def cls_of(q):
+        return q.rsplit("::", 1)[0]
+
+    def strip(t):
+        while True:
+            k = t.get("k")
+            if k in ("Index", "Paren", "Cast", "ImplicitCast") and (t.get("e") or t.get("a")) is not None:
+                t = t.get("e") or t.get("a")
+            elif k == "OpCall" and t.get("op") in ("[]", "*") and t.get("args"):
+                t = t["args"][0]
+            elif k == "Un" and t.get("op") == "*":
+                t = t["e"]
+            else:
+                return t
+
+    def member_effects(entry):
+        """members of the entry's own object written / read in the entry and in the methods of the same class it reaches"""
+        c = cls_of(entry)
+        seen, st = set(), [entry]
+        while st:
+            q = st.pop()
+            if q in seen:
+                continue
+            seen.add(q)
+            st.extend(x for x in cg.callees.get(q, ()) if cls_of(x) == c)
+        wr, rd = {}, {}
+        for q in sorted(seen):
+            for f in whole.fns(q):
+                targets = set()
+                for n in ir.walk(f["body"]):
+                    tgt = None
+                    k = n.get("k")
+                    if k == "Assign":
+                        tgt = n["a"]
+                    elif k == "OpCall" and n.get("op") in ("=", "+=", "-=", "*=", "/=") and n.get("args"):
+                        tgt = n["args"][0]
+                    elif k == "Un" and n.get("op") in ("++", "--"):
+                        tgt = n["e"]
+                    elif k == "Call" and n.get("this") is not None and structq.is_this_field(n["this"]):
+                        cf = whole.fns(n.get("callee") or "")
+                        if cf and not cf[0].get("constm") and not cf[0].get("static"):
+                            tgt = n["this"]
+                    if tgt is not None:
+                        t = strip(tgt)
+                        if structq.is_this_field(t):
+                            wr.setdefault(t["field"], []).append((q, ir.locstr(n)))
+                            if k == "Assign" or (k == "OpCall" and n.get("op") == "="):
+                                targets.add(id(t))
+                for n in ir.walk(f["body"]):
+                    if structq.is_this_field(n) and id(n) not in targets:
+                        rd.setdefault(n["field"], []).append((q, ir.locstr(n)))
+        return wr, rd, seen
+
+    # positive control: the matcher must see solve()'s own bookkeeping writes, or it sees nothing at all
+    wr0, _, _ = member_effects("GMGPolar::solve")
+    if "number_of_iterations_" not in wr0:
+        raise ir.AnalysisBroken("R-C13-6 matcher does not find solve()'s write of number_of_iterations_: the member-write query no longer sees the code")
+    entries = [q for q in drv.SIGS if q.startswith(("GMGPolar::", "Interpolation::"))]
+    for base in ("Residual::computeResidual", "Smoother::smoothing", "ExtrapolatedSmoother::extrapolatedSmoothing", "DirectSolver::solveInPlace"):
+        ovs = sorted(cg.overriders.get(base, ()))
+        if not ovs:
+            raise ir.AnalysisBroken("anchor vanished: no override of %s" % base)
+        entries += [o for o in ovs if "MUMPS" not in o and "Task" not in o]
+    for e in entries:
+        if not whole.fns(e):
+            raise ir.AnalysisBroken("anchor vanished: %s" % e)
+        ck.instance("R-C13-6", e)
+        wr, rd, seen = member_effects(e)
+        if not wr:
+            ck.ok("R-C13-6", e, sample={"function": e, "methods of its class reached": len(seen), "members written": 0} if e == "GMGPolar::computeExactError" else None)
+            continue
+        m_ = sorted(wr)[0]
+        q, loc = wr[m_][0]
+        carried = m_ in rd
+        if e.startswith("GMGPolar::"):
+            if carried and m_ in (setup_writes_all[0] or set()):
+                ck.ok("R-C13-6", e)     # a cache that every setup() re-establishes cannot carry values into another problem
+            elif carried:
+                ck.violation("R-C13-6", "%s:%s" % (e, m_), loc, "%s writes the member %s at %s and reads it at %s, and setup() does not re-establish it: what one call leaves there decides a later call, also after setup() for another problem (the driver analysis treats %s as a pure function of its arguments)" % (
+                    q, m_, loc, rd[m_][0][1], e))
+            else:
+                raise ir.AnalysisBroken("%s now writes the member %s (%s), which its operator signature in the driver analysis does not describe" % (e, m_, loc))
+        else:
+            raise ir.AnalysisBroken("%s writes the member %s of its operator object (%s): the operator keeps state between applications, which the one-application analyses of C03/C04/C06/C07/C08 do not model" % (q, m_, loc))
     ck.extra["modes"] = n_modes
     ck.extra["paths"] = n_paths
     return ck.finish(
